@@ -18,15 +18,6 @@ def short_regime(payload):
                                                          "fromutc sets fold", "tzfile does not report", "offset/abbreviation reported")))
 
 
-def after_last_transition(payload):
-    """F-C04-after-last-transition / F-C06-last-transition (audit A2): from the last transition of the
-    version-1 data on, tzfile applies ttinfo_std instead of the type of that transition."""
-    i = payload.get("input") or {}
-    return (i.get("after_last") is True and isinstance(i.get("u"), int) and isinstance(i.get("last_transition"), int)
-            and i["u"] >= i["last_transition"]
-            and str(payload.get("kind", "")).startswith("property: from the last transition on"))
-
-
 def tzical_std_offset_change(payload):
     """F-C04/C05-tzical-std-change: an iCalendar zone whose STANDARD offset changes; instants / wall times
     within max(|old offset|, |new offset|, |change|) of the change are converted with the wrong offset (generic _tzinfo._fromutc assumes
@@ -40,5 +31,4 @@ def tzical_std_offset_change(payload):
             and i.get("impl_ok") is True)
 
 
-MATCHERS = {"short_regime": short_regime, "after_last_transition": after_last_transition,
-            "tzical_std_offset_change": tzical_std_offset_change}
+MATCHERS = {"short_regime": short_regime, "tzical_std_offset_change": tzical_std_offset_change}
